@@ -373,8 +373,7 @@ class Expr2Mixin:
             sc, elt = self.ev1(node.elt, sc)
         finally:
             self.qvars.pop()
-        if isinstance(elt, VListRef):
-            elt = sc.lists[elt.lid]
+        elt = self.deref(sc, elt)
         facts = sc.pc[base_pc:]
         if cond is not None:
             facts = [f for f in facts if not f.eq(cond)]
@@ -411,6 +410,14 @@ class Expr2Mixin:
         s.notes['filter_log'] = s.notes.get('filter_log', ()) + (self.last_filter,)
         s.lists.update({i: v for i, v in sc.lists.items() if i not in s.lists})
         yield s, s.new_list(r)
+
+    def deref(self, st, v):
+        """list objects inside a value (also inside tuples) replaced by their current contents: what can be stored as a list element"""
+        if isinstance(v, VListRef):
+            return st.lists[v.lid]
+        if isinstance(v, VTuple):
+            return VTuple(tuple(self.deref(st, i) for i in v.items))
+        return v
 
     def comprehension2(self, node, st):
         """[elt for x in xs for y in f(x) if cond]: order-preserving flattening, described by ghost index maps
